@@ -5,9 +5,11 @@ Model.C47 — the two authenticated-cipher wrappers of gno's tree, as coded:
   (HChaCha20 sub-key from the first 16 nonce bytes, inner ChaCha20-Poly1305 with
   the 12-byte nonce `00 00 00 00 ‖ nonce[16:24]`);
 * tm2/pkg/crypto/xsalsa20symmetric/symmetric.go: `EncryptSymmetric`
-  (`nonce ‖ secretbox.Seal`) and `DecryptSymmetric` (note the `<=` in its length
-  test: a ciphertext of exactly 40 bytes — the encryption of the EMPTY plaintext —
-  is rejected as "too short").
+  (`nonce ‖ secretbox.Seal`) and `DecryptSymmetric`.  Its length test is
+  `len(ciphertext) < Overhead+nonceLen`; until the `fix:` commit recorded in
+  known_findings/C47.json it was `<=`, which rejected the 40-byte encryption of the
+  EMPTY plaintext as "too short" (`decryptSymmetricOld` keeps that variant for the
+  regression theorem).
 
 The wrappers are parametric in the inner primitive (a structure of plain
 functions): the theorems of `Props/C47.lean` are stated for every inner cipher
@@ -98,6 +100,14 @@ def encryptSymmetric (B : Box) (nonce pt secret : Bytes) : Res Bytes :=
 
 /-- `DecryptSymmetric(ciphertext, secret)` -/
 def decryptSymmetric (B : Box) (ct secret : Bytes) : Res Bytes :=
+  if secret.length ≠ secretLen then .panic "secretlen"
+  else if ct.length < boxOverhead + nonceLen then .err "short"
+  else match B.doOpen (ct.drop nonceLen) (ct.take nonceLen) secret with
+    | some pt => .ok pt
+    | none => .err "auth"
+
+/-- `DecryptSymmetric` as it was before the fix (`<=` in the length test) -/
+def decryptSymmetricOld (B : Box) (ct secret : Bytes) : Res Bytes :=
   if secret.length ≠ secretLen then .panic "secretlen"
   else if ct.length ≤ boxOverhead + nonceLen then .err "short"
   else match B.doOpen (ct.drop nonceLen) (ct.take nonceLen) secret with
